@@ -48,6 +48,7 @@ func cmdRun(args []string) {
 	fs.IntVar(&cfg.MaxPaths, "maxpaths", 0, "path limit")
 	fs.IntVar(&cfg.TimeoutS, "timeout", 0, "time limit in seconds")
 	params := fs.String("params", "", "harness parameters, e.g. L=3,H=2")
+	fs.IntVar(&cfg.SchedBudget, "sched", 0, "free scheduling choices explored per path (0 = all)")
 	workers := fs.Int("workers", runtime.NumCPU(), "parallel workers")
 	solver := fs.String("solver", "z3", "z3 | z3-new | cvc5")
 	qto := fs.Int("qtimeout", 60000, "per-query timeout ms")
